@@ -10,4 +10,4 @@ if ! git apply "$P" >/dev/null 2>&1; then
   git apply --3way "$P" >/dev/null 2>&1
   if git diff --name-only --diff-filter=U | grep -q . || git diff --quiet; then echo "PATCH DOES NOT APPLY CLEANLY: $P"; exit 3; fi
 fi
-( cd /verif && VERIF_REPO=$WT ./check "$ID" "$TIER" -no-evidence 2>&1 | grep -v "child finished" | cut -c1-400 | head -12 )
+( cd /verif && VERIF_REPO=$WT ./check "$ID" "$TIER" -no-evidence ${SEEDTEST_EXTRA:-} 2>&1 | grep -v "child finished" | cut -c1-400 | head -12 )
